@@ -139,7 +139,10 @@ class Stmt:
         pad = ' ' * indent
         starts = getattr(self, 'starts', [0])
         unpref = getattr(self, 'unprefixed', [])
+        inline = getattr(self, 'inline', None)
         for j, l in enumerate(self.lines):
+            if j == 0 and inline:
+                l = l + '  # xdoctest: ' + inline           # an inline directive on the statement's first line
             if j in unpref:
                 out.append(pad + l)
             elif j in starts:
@@ -202,6 +205,22 @@ def render_doc(stmts, wants, style='ps2', indent=0, blank_after_want=False):
 
 
 PROSE = ['Some prose here.', 'More text about the example:', 'Note the following.', 'Args: none', 'Returns: nothing']
+
+
+# kinds whose first line can carry a trailing comment (not a decorator / comment line, not ending inside a string or
+# carrying a comment already)
+INLINE_OK = ('assign', 'print', 'print2', 'expr', 'printexpr', 'none', 'multi', 'compound', 'augassign', 'for', 'while', 'with',
+             'import', 'semicolon', 'async_with', 'class')
+HARMLESS_INLINE = ['+NORMALIZE_WHITESPACE', '+ELLIPSIS', '-IGNORE_WHITESPACE', '+REQUIRES(module:os)']
+
+
+def add_inline_directives(rng, stmts, prob=0.2):
+    """puts a directive that changes nothing on the first line of some statements: the statement becomes a part of
+    its own, so part boundaries fall in front of whatever follows (decorated definitions, async statements, ...)"""
+    for st in stmts:
+        if st.kind in INLINE_OK and rng.random() < prob:
+            st.inline = rng.choice(HARMLESS_INLINE)
+    return stmts
 
 
 def gen_program(rng, n=None, kinds=None):
